@@ -58,6 +58,7 @@ type outcome struct {
 	diff      string
 	info      []string // informational observations (never violations)
 	stmts     int
+	micros    int64 // time spent on the case (evidence only; decides nothing)
 }
 
 var scriptCache sync.Map // text -> *TraceQLScript | error
@@ -697,7 +698,9 @@ func main() {
 				if stop || i >= len(cases) {
 					return
 				}
+				t := time.Now()
 				results[i] = w.evaluate(cases[i], dbs[cases[i].DB], false)
+				results[i].micros = time.Since(t).Microseconds()
 			}
 		}()
 	}
@@ -719,6 +722,7 @@ func fold(r *ev.Run, cases []caseSpec, results []outcome, dbs map[string]*Databa
 	classExample := map[string]string{}
 	infoCount := map[string]int{}
 	famCount := map[string]int{}
+	famMillis := map[string]int64{}
 	for i := range results {
 		o := &results[i]
 		if !o.done {
@@ -729,6 +733,7 @@ func fold(r *ev.Run, cases []caseSpec, results []outcome, dbs map[string]*Databa
 		r.AddEval(1)
 		programs[c.Text] = true
 		famCount[c.Family+"/"+c.API+"/"+c.Mode]++
+		famMillis[c.Family+"/"+c.API+"/"+c.Mode] += o.micros
 		stmts += int64(o.stmts)
 		switch {
 		case o.class == "harness":
@@ -799,6 +804,10 @@ func fold(r *ev.Run, cases []caseSpec, results []outcome, dbs map[string]*Databa
 	r.Extra["cases_planned"] = len(cases)
 	r.Extra["cases_done"] = done
 	r.Extra["cases_by_family_api_path"] = famCount
+	for k, v := range famMillis {
+		famMillis[k] = v / 1000
+	}
+	r.Extra["worker_ms_by_family_api_path"] = famMillis
 	r.Extra["sql_statements_executed"] = stmts
 	r.Extra["chsim_unsupported"] = chsimUnsupported
 	shapes := make([]string, 0, len(unsupportedShapes))
